@@ -141,7 +141,7 @@ def stale_calls(w, rng):
     rng.shuffle(out)
     return out
 
-def close_case(rng, tier, many=False):
+def close_case(rng, tier, many=False, readonly=False):
     w = World(rng, names=PLAIN if rng.random() < 0.7 else NAMES, uuid_names=False)
     l = ['cr_h5count']
     w.open('ow')
@@ -162,6 +162,14 @@ def close_case(rng, tier, many=False):
     if t and not w.alive('R'): w.mk('R', t, name='x')
     a = w.pick('A')
     w.emit('adim %s sampled %s ~ ~ ~' % (a.slot, f64(0.5)))
+    if readonly:
+        # the session that gets closed is a read-only one in which mutating calls were attempted (and refused)
+        w.emit('fdrop'); w.emit('fopen ro auto'); w.rebind()
+        for e in [x for x in w.alive() if x.kind in ('B', 'A', 'T', 'S', 'O', 'G')][:rng.randint(2, 8)]:
+            w.emit('set %s definition %s' % (e.slot, S('refused in a read-only session')))
+            if rng.random() < 0.4: w.emit('set %s type %s' % (e.slot, S('other')))
+        blk = w.pick('B')
+        if blk: w.emit('mk $ro1 A %s %s %s Double [2]' % (blk.slot, S('not-in-ro'), S('t')))
     held = []
     w.emit('cr_hold %s dim 1' % a.slot); held.append(('dim', 0))
     w.emit('cr_hold %s view' % a.slot); held.append(('view', 0))
@@ -201,6 +209,8 @@ def cases(tier, seed, rng):
         out.append(Case(close_case(rng, tier), 'gen:close'))
     for _ in range(2 if tier == 'quick' else 25):
         out.append(Case(close_case(rng, tier, many=True), 'gen:close-many-handles'))
+    for _ in range(3 if tier == 'quick' else 30):
+        out.append(Case(close_case(rng, tier, readonly=True), 'gen:close-readonly-session'))
     return out
 
 def nontrivial(case, tags):
